@@ -2,6 +2,8 @@ package main
 
 import (
 	"fmt"
+	"os"
+	"sort"
 	"go/token"
 	"go/types"
 	"strings"
@@ -55,6 +57,9 @@ func (x *Exec) args(fr *Frame, st *State, cc *ssa.CallCommon) []Term {
 
 func (x *Exec) callCommon(fr *Frame, st *State, ins ssa.Instruction, cc *ssa.CallCommon, res ssa.Value) {
 	pos := ins.Pos()
+	if debugCovers && fr == x.root && !fr.spec {
+		defer func() { x.oblige(fr, "cover", "after "+snippetOf(ins), st, tFalse, pos) }()
+	}
 	if cc.IsInvoke() {
 		x.invoke(fr, st, ins, cc, res)
 		return
@@ -500,6 +505,11 @@ func (x *Exec) reachableHeaps(sig *types.Signature) []heapID {
 			}
 		case *types.Array:
 			visit(u.Elem(), depth+1)
+		case *types.Interface:
+			// closed world: the dynamic types are those the target packages convert to interfaces
+			for _, bt := range x.eng.boxedTypes() {
+				visit(bt, depth+1)
+			}
 		}
 	}
 	if sig.Recv() != nil {
@@ -684,28 +694,89 @@ func (x *Exec) reachableHeapsOfValues(vals []ssa.Value) []heapID {
 func (x *Exec) pureCall(fr *Frame, st *State, full string, sig *types.Signature, args []Term, res ssa.Value) {
 	vc := x.vc
 	x.pureUsed[full] = true
+	// the result is an uninterpreted function of the argument VALUES: a pointer argument is
+	// replaced by the value it points to (addresses differ between copies of the same value),
+	// and of the heaps reachable from the parameter types.
+	var ptypes []types.Type
+	if sig.Recv() != nil {
+		ptypes = append(ptypes, sig.Recv().Type())
+	}
+	for i := 0; i < sig.Params().Len(); i++ {
+		ptypes = append(ptypes, sig.Params().At(i).Type())
+	}
+	var all []Term
+	for i, a := range args {
+		if i < len(ptypes) {
+			if pt, ok := underlying(ptypes[i]).(*types.Pointer); ok {
+				if _, isArr := isArrayType(pt.Elem()); !isArr {
+					h := vc.objHeap(pt.Elem())
+					v := sel(x.heap(st, h), a, vc.sortOf(pt.Elem()))
+					all = append(all, eqZero(a), v)
+					continue
+				}
+			}
+		}
+		all = append(all, a)
+	}
+	for _, h := range x.reachableHeapsNoTop(sig) {
+		all = append(all, x.heap(st, h))
+	}
+	var sorts []Sort
+	for _, a := range all {
+		sorts = append(sorts, a.Sort)
+	}
 	var results []Term
 	for i := 0; i < sig.Results().Len(); i++ {
 		rt := sig.Results().At(i).Type()
-		var sorts []Sort
-		for _, a := range args {
-			sorts = append(sorts, a.Sort)
-		}
 		name := fmt.Sprintf("uf_%s_%d", mangle(strings.ReplaceAll(full, modPath+"/", "")), i)
 		vc.declareFun(name, sorts, vc.sortOf(rt))
 		var r Term
-		if len(args) == 0 {
+		if len(all) == 0 {
 			r = Term{name, vc.sortOf(rt)}
 		} else {
-			r = app(vc.sortOf(rt), name, args...)
+			r = app(vc.sortOf(rt), name, all...)
 		}
 		if vc.noName == 0 {
 			r = vc.name("uf", r)
 			x.wf(st, r, rt)
+			// the zero Ref renders as the empty string (jsonreference.Ref.String on a Ref without URL/pointer)
+			if strings.HasSuffix(full, "spec.Ref).String") || strings.HasSuffix(full, "jsonreference.Ref).String") {
+				val := all[0]
+				var zt types.Type = ptypes[0]
+				if pt, ok := underlying(zt).(*types.Pointer); ok {
+					zt = pt.Elem()
+					val = all[1]
+				}
+				vc.assert(implies(eq(val, vc.zero(zt)), eq(r, strLit(""))))
+				x.lib(full + " (zero Ref prints as \"\")")
+			}
 		}
 		results = append(results, r)
 	}
 	x.setResult(fr, res, sig, results)
+}
+
+func eqZero(a Term) Term { return eq(a, intLit(0)) }
+
+// reachableHeapsNoTop: heaps reachable from the parameter types, excluding the object heap of
+// a top-level pointer parameter itself (its pointee is passed by value).
+func (x *Exec) reachableHeapsNoTop(sig *types.Signature) []heapID {
+	var ps []*types.Var
+	add := func(t types.Type) {
+		if pt, ok := underlying(t).(*types.Pointer); ok {
+			if _, isArr := isArrayType(pt.Elem()); !isArr {
+				t = pt.Elem() // the pointee is passed by value; what it refers to is still reachable
+			}
+		}
+		ps = append(ps, types.NewVar(token.NoPos, nil, "", t))
+	}
+	if sig.Recv() != nil {
+		add(sig.Recv().Type())
+	}
+	for i := 0; i < sig.Params().Len(); i++ {
+		add(sig.Params().At(i).Type())
+	}
+	return x.reachableHeaps(types.NewSignatureType(nil, nil, nil, types.NewTuple(ps...), nil, false))
 }
 
 // functions treated as pure, deterministic and total, by full name
@@ -742,3 +813,70 @@ var pureNames = map[string]bool{
 func (x *Exec) pureByName(full string) bool { return pureNames[full] }
 
 func (x *Exec) isPureExternal(fn *ssa.Function) bool { return pureNames[fn.String()] }
+
+var debugCovers = os.Getenv("GOCV_DEBUG_COVERS") == "1"
+
+// boxedTypes: every concrete type that code of the target packages (ghost code excluded)
+// converts to an interface. Used as the closed world of dynamic types behind interface-typed
+// parameters of pure functions.
+func (e *Engine) boxedTypes() []types.Type {
+	if e.boxed != nil {
+		return e.boxed
+	}
+	seen := map[string]bool{}
+	var res []types.Type
+	var walk func(fn *ssa.Function)
+	walk = func(fn *ssa.Function) {
+		if strings.HasPrefix(fn.Name(), "vs_") {
+			return
+		}
+		for _, b := range fn.Blocks {
+			for _, ins := range b.Instrs {
+				if mi, ok := ins.(*ssa.MakeInterface); ok {
+					k := typeKey(mi.X.Type())
+					if !seen[k] {
+						seen[k] = true
+						res = append(res, mi.X.Type())
+					}
+				}
+			}
+		}
+		for _, af := range fn.AnonFuncs {
+			walk(af)
+		}
+	}
+	paths := make([]string, 0, len(e.Targets))
+	for p := range e.Targets {
+		paths = append(paths, p)
+	}
+	sort.Strings(paths)
+	for _, p := range paths {
+		tp := e.Targets[p]
+		names := make([]string, 0, len(tp.SSA.Members))
+		for n := range tp.SSA.Members {
+			names = append(names, n)
+		}
+		sort.Strings(names)
+		for _, n := range names {
+			switch m := tp.SSA.Members[n].(type) {
+			case *ssa.Function:
+				walk(m)
+			case *ssa.Type:
+				for _, t := range []types.Type{m.Type(), types.NewPointer(m.Type())} {
+					ms := e.Prog.MethodSets.MethodSet(t)
+					for i := 0; i < ms.Len(); i++ {
+						if mf := e.Prog.MethodValue(ms.At(i)); mf != nil && mf.Pkg == tp.SSA {
+							walk(mf)
+						}
+					}
+				}
+			}
+		}
+	}
+	sort.Slice(res, func(i, j int) bool { return typeKey(res[i]) < typeKey(res[j]) })
+	if res == nil {
+		res = []types.Type{}
+	}
+	e.boxed = res
+	return res
+}
